@@ -505,7 +505,8 @@ class Operator:
             )
             with self.timer.getTimer(interactionMessage):
                 interactMethod = getattr(interface, interactMethodName)
-                halt = halt or interactMethod(*args)
+                result = interactMethod(*args)
+                halt = halt or result
 
             if self.cs["debugDB"]:
                 self._debugDB(interactionName, interface.name, statePointIndex)
